@@ -2,7 +2,7 @@
    re-issued request, revalidation order and progress are checked by correspondence and monitors). *)
 From Coq Require Import List NArith ZArith String Bool.
 From DT Require Import GenStatus GenEvent GenMsgType FsmTypes GenFsm Fsm Machine View Caches Msg Node
-     FsmFacts NodeFacts NodeProps C19Proofs.
+     FsmFacts NodeFacts NodeProps C19Proofs Transport C16Proofs.
 Import ListNotations.
 
 (* over every history of inputs (restarts of every kind included, with process restarts): every
@@ -46,3 +46,27 @@ Proof.
   intros c H. unfold new_request. destruct (N.eqb_spec (c_basecid c) 0); [contradiction|reflexivity].
 Qed.
 Print Assumptions C10_initiator_reissues_original.
+
+(* transport level: the new request tells the sender to skip exactly the recorded number of
+   received blocks, after the channel's previous request was cancelled *)
+Theorem C10_restart_request_shape :
+  forall s to k n m c old,
+    tlookup k (ts_chans s) = Some c -> tc_req c = Some old -> tc_rcancel c = false ->
+    exists rest1 rest2,
+      snd (tstep s (XOpenChannel to k (Some n) m) []) =
+      OGs (GCancel old) true :: rest1 ++ OGs (GRequest to m (Some n)) true :: rest2.
+Proof. exact restart_request_shape. Qed.
+Print Assumptions C10_restart_request_shape.
+
+(* messages queued while the requester was away are delivered once, on its next request *)
+Theorem C10_pending_extensions_delivered_once :
+  forall s p rid m c a,
+    g_isreq m = true ->
+    tlookup (p, ts_self s, g_tid m) (ts_chans s) = Some c -> tc_rcancel c = true -> ha_ret a <> HErr ->
+    let k := (p, ts_self s, g_tid m) in
+    let '(s', o) := tstep s (GIncomingRequest p rid (Some m)) [a] in
+    (exists c', tlookup k (ts_chans s') = Some c' /\ tc_pending c' = [] /\ tc_rcancel c' = false /\
+                tc_req c' = Some rid) /\
+    default_exts o = tc_pending c.
+Proof. exact pending_extensions_delivered_once. Qed.
+Print Assumptions C10_pending_extensions_delivered_once.
